@@ -280,6 +280,15 @@ theorem roundtrip (p : Bytes) (sizes : Nat → Nat) (hs : ∀ i, 1 ≤ sizes i) 
     exact key elems (fun e he => he)
   · rw [mkElems_words, h3]
 
+/-- **No two payloads share an armor.**  The armor encoder is injective: a cache or decoder can never be
+handed one document that stands for two different payloads (corollary of `roundtrip`). -/
+theorem armor_injective (p q : Bytes) (h : armor p = armor q) : p = q := by
+  have h1 : decode (fun _ => 1) (armor p) = .read p none := roundtrip p (fun _ => 1) (fun _ => Nat.le_refl 1)
+  have h2 : decode (fun _ => 1) (armor q) = .read q none := roundtrip q (fun _ => 1) (fun _ => Nat.le_refl 1)
+  have h3 : decode (fun _ => 1) (armor p) = decode (fun _ => 1) (armor q) := congrArg _ h
+  have h4 : (Result.read p none) = .read q none := h1.symm.trans (h3.trans h2)
+  injection h4
+
 /-- **Re-separation with ASCII whitespace.**  Take the words of the armor of `p` (or any other split of
 `'0'` + base64(`p`) into non-empty words) and write them into `pre` elements with *any* runs of
 `\t \n \f \r space` before, between and after them (between two words at least one), any harmless bytes
